@@ -3,9 +3,14 @@
    Coq's N / positive / nat datatypes.  No Extract Constant, no other Extract Inductive. *)
 From Coq Require Import NArith List.
 From Coq Require Extraction ExtrOcamlBasic.
-From ZB Require Import Base.Bytes Crc.CrcSpec Crc.CrcModel.
+From ZB Require Import Base.Bytes Crc.CrcSpec Crc.CrcModel Link.LLHeader Link.LinkSpec Link.Frame Link.Frag Link.Resync Link.Rx Link.RxSpec.
 
 Extraction Language OCaml.
 Set Extraction KeepSingleton.
 Extraction "../ocaml/gen/model.ml"
-  crc8_from crc16_from crc8_spec crc16_spec.
+  crc8_from crc16_from crc8_spec crc16_spec
+  ll_get ll_with hl_get hl_with
+  serialize to_frame stamp ack_frame tx_fragment count_fragments_n frag_body
+  spec_decode spec_encode claims
+  extract_frame_x data_received
+  spec_parse_pos spec_ack_bytes waits.
